@@ -828,6 +828,12 @@ def _implied(term, value, out):
             _implied(c, False, out)
 
 
+import os as _os
+CROSS_BUDGET = int(_os.environ.get('VERIF_CVC5_PER_CUBE', '2'))
+CROSS_EVERY = 37
+CROSS_OFFSET = int(_os.environ.get('VERIF_SEED', '0') or 0)
+
+
 class Engine:
     def __init__(self, timeout_ms=60000, max_paths=None):
         global ENGINE
@@ -1220,6 +1226,7 @@ class Engine:
         if r == z3.sat:
             return self.solver.model()
         if r == z3.unsat:
+            self._second_opinion(neg)
             return None
         # 2. unknown: guided search for a counterexample -- fix the input atoms to
         #    small rationals (the query becomes ground) ; a hit is a genuine model
@@ -1244,6 +1251,31 @@ class Engine:
         if self._check(neg, *self.lemmas, kind='prop'):
             return self.last_model
         return None
+
+    def _second_opinion(self, neg):
+        """re-decide a sample of the discharged property queries with cvc5; a `sat` answer is a solver
+        disagreement (inconclusive, exit 2); `unknown` / errors are counted and change nothing"""
+        st = self.stats
+        n = st.get('unsat_props', 0)
+        st['unsat_props'] = n + 1
+        budget = CROSS_BUDGET
+        if budget <= 0 or st.get('cross_checked', 0) >= budget or (n % CROSS_EVERY) != (CROSS_OFFSET % CROSS_EVERY):
+            return
+        from symx import second
+        t0 = time.time()
+        text = second.export(list(self.solver.assertions()) + list(self.lemmas) + [neg])
+        r = second.cvc5_check(text, 3000)
+        st['cross_s'] = st.get('cross_s', 0.0) + time.time() - t0
+        st['cross_checked'] = st.get('cross_checked', 0) + 1
+        if r == 'unsat':
+            st['cross_agree'] = st.get('cross_agree', 0) + 1
+        elif r == 'sat':
+            raise Inconclusive("solver disagreement: z3 unsat, cvc5 sat on a property query")
+        elif r == 'unknown':
+            st['cross_unknown'] = st.get('cross_unknown', 0) + 1
+        else:
+            st['cross_error'] = st.get('cross_error', 0) + 1
+            self.cross_errors = (getattr(self, 'cross_errors', []) + [r])[:3]
 
     def _check_raw(self, assumption, timeout_ms):
         self.solver.set('timeout', timeout_ms)
